@@ -128,6 +128,12 @@ def build(kind, nm):
                "minsum": lambda: D.MinSumLDPCDecoder(enc, bp_iters=8), "sc": lambda: D.SuccessiveCancellationDecoder(enc), "polarbp": lambda: D.BeliefPropagationPolarDecoder(enc, bp_iters=6), "polarbp2": lambda: D.BeliefPropagationPolarDecoder(enc, bp_iters=2),
                "softrm": lambda: D.ReedMullerDecoder(enc, input_type="soft"), "hamming": lambda: None}[head]()
         f = (lambda x: dec(x)) if dec is not None else (lambda x: enc.inverse_encode(x)[0])
+        if kind == "decoder" and dec is not None:
+            # the same object called with a per-call option in between (the option must not stick to the object)
+            if head in ("bp", "minsum"):
+                f.alt = ("return_soft=True", lambda x: dec(x, return_soft=True))
+            elif head in ("syndrome", "bruteforce", "bm", "reed", "wagner"):
+                f.alt = ("return_errors=True", lambda x: dec(x, return_errors=True))
         if kind == "decoder-errors":
             def f(x, dec=dec):
                 m, e = dec(x, return_errors=True)
@@ -170,8 +176,12 @@ def build(kind, nm):
         seqs = [[pts[0], pts[-1], pts[1]], [pts[1] * 1.1 + 0.03, pts[2 % len(pts)] - 0.02j, pts[0]], [mid, mid, pts[-1]], [pts[0] * 9, -pts[0] * 9, 0j], [0.01 + 0.02j, pts[-1] * 0.5, pts[1] + 0.3]]
         pool = [torch.tensor(s, dtype=torch.complex64) for s in seqs]
         if kind == "demod-hard":
-            return (lambda y: dem(y)), pool, 3, False
-        return (lambda y: dem(y, 0.5)), pool, 3, False
+            fh = lambda y: dem(y)  # noqa: E731
+            fh.alt = ("noise_var=0.5", lambda y: dem(y, 0.5))
+            return fh, pool, 3, False
+        fs = lambda y: dem(y, 0.5)  # noqa: E731
+        fs.alt = ("noise_var=2.0", lambda y: dem(y, 2.0))
+        return fs, pool, 3, False
     if kind == "constraint":
         import kaira.constraints as KC
         nm, _, lay = nm.partition("@")
@@ -331,5 +341,41 @@ def execute(p, res):
                 v("sequence", "repeatable", f"call sequence {seq}: member {i} now -> {r.reshape(-1).tolist()[:8]}, first time -> {ref[i].reshape(-1).tolist()[:8]}", {"seq": list(seq)})
                 break
         res.ev(1, nontrivial=1 if len(set(seq)) > 1 else 0, transitions=0)
+    # E2 with per-call options: every sequence of length 3 over {plain call, call with the option} x 3 members on this one object; a plain call
+    # answers as the first plain call did, an optioned call as the first optioned call did (fresh-object references for both)
+    if hasattr(f, "alt"):
+        oname, g = f.alt
+
+        def flat(r):
+            parts = r if isinstance(r, (tuple, list)) else [r]
+            return ("tuple" if isinstance(r, (tuple, list)) else "tensor", len(parts), torch.cat([p_.to(torch.complex128 if p_.is_complex() else torch.float64).reshape(-1) for p_ in parts]))
+        f2, _, _, _ = build(kind, nm)          # a fresh object for the optioned references
+        try:
+            ref_alt = [flat(f2.alt[1](m.unsqueeze(0))) for m in pool[:3]]
+        except Exception as e:  # noqa: BLE001
+            ref_alt = None
+            res.rejected += 1
+        if ref_alt is not None:
+            ref_plain = [flat(call(m.unsqueeze(0))) for m in pool[:3]]
+            bad = False
+            for seq in product([(0, i) for i in range(3)] + [(1, i) for i in range(3)], repeat=3):
+                if bad:
+                    break
+                if len({v_ for v_, _ in seq}) == 1 and seq[0][0] == 0:
+                    continue           # plain-only sequences were run above
+                for pos, (var, i) in enumerate(seq):
+                    try:
+                        r = flat((g if var else f)(pool[i].unsqueeze(0)))
+                    except Exception as e:  # noqa: BLE001
+                        v("options", "raises", f"call sequence {seq} (1 = with {oname}): {type(e).__name__}: {str(e)[:160]}")
+                        bad = True
+                        break
+                    want = (ref_alt if var else ref_plain)[i]
+                    if r[:2] != want[:2] or r[2].shape != want[2].shape or not same(r[2], want[2], exact, tol):
+                        v("options", "repeatable", f"call sequence {[('with ' + oname if v_ else 'plain', i_) for v_, i_ in seq]}: call {pos} returned a {r[0]} of {r[1]} part(s) {r[2].tolist()[:8]}, "
+                          f"a fresh object returns a {want[0]} of {want[1]} part(s) {want[2].tolist()[:8]}", {"seq": [list(t_) for t_ in seq]})
+                        bad = True
+                        break
+                res.ev(1, nontrivial=1, transitions=3)
     res.outcome((comp, len(pool)))
     res.sample({"component": comp, "pool": len(pool), "member_shape": list(pool[0].shape)})
